@@ -59,6 +59,10 @@ Proof. split; reflexivity. Qed.
 Lemma all_locked_spec : all_locked = true.
 Proof. reflexivity. Qed.
 
+(** the session key is a fresh uuid, set into the context and nothing else *)
+Lemma session_key_fresh_spec : session_key_fresh = true.
+Proof. reflexivity. Qed.
+
 (* ------------------------------------------------------------------ *)
 (** * The step function in closed form *)
 
